@@ -742,7 +742,7 @@ class TlsRenegotiatedConnection(Opaque):
 @attr.s
 class TlsExtensionRenegotiationInfo(TlsExtensionParsed):
     renegotiated_connection = attr.ib(
-        default=TlsRenegotiatedConnection([]),
+        default=attr.Factory(lambda: TlsRenegotiatedConnection([])),
         validator=attr.validators.instance_of(TlsRenegotiatedConnection)
     )
 
@@ -771,7 +771,7 @@ class TlsExtensionRenegotiationInfo(TlsExtensionParsed):
 @attr.s
 class TlsExtensionSessionTicket(TlsExtensionParsed):
     session_ticket = attr.ib(
-        default=bytearray([]),
+        default=attr.Factory(bytearray),
         validator=attr.validators.instance_of((bytes, bytearray))
     )
 
